@@ -726,7 +726,7 @@ class HistoryStream(Stream):
                 # close into the callbacks) and no callback runs
                 converted = any(e in ("makeseq", "freeze") for e in evs[: evs.index("wsgi")])
                 raw_only = ["wrapped"] if (case["body"][0] == "C" and not converted) else []
-                if case["dp"] and not bodyless and want != raw_only and sorted(log) == raw_only and "freeze" not in evs[: evs.index("wsgi")]:
+                if case["dp"] and not bodyless and want != raw_only and sorted(log) == raw_only:
                     pre = "F05: "
                 elif "freeze" in evs[:upto] and case["body"][0] == "C" and sorted(log) == sorted(w for w in want if w != "wrapped"):
                     # freeze() came before anything else consumed the closable body
